@@ -206,15 +206,16 @@ def check_penalize_default(h, tag, n, Ad, A, b, x, D, kw, mask):
         a = -a if bool(a < 0) else a
         if best is None or bool(a > best):
             best = a
-    # 1 / epsilon with epsilon = 1e-10 / max|d|, formed from the SAME float literal as the library's (its binary value is not 10^-10)
+    # The default penalty is whatever the library picks, as long as it IS a penalty: one common positive value on the constrained
+    # diagonal, at least 10^6 times the largest constrained diagonal entry in absolute value, the right-hand side scaled with it,
+    # everything else untouched.  (The shipped choice is 1e10 max|d|; its exact value is not demanded.)
     if h.sym_mode:
         h.assume(best > 0)
-        pen = 1.0 / (1e-10 / best)
-    else:
-        if not best > 0:
-            return
-        pen = 1.0 / (1e-10 / best)
-    scale = 1.0 if h.sym_mode else float(pen)
+    elif not best > 0:
+        return
+    pen = Do[Dset[0], Dset[0]]
+    h.valid('%s: penalty is positive and >= 1e6 max|A_ii| over the constrained rows' % tag, h.And(pen > 0, pen >= best * 10 ** 6), kinds=('default', 'nlsat'))
+    scale = 1.0 if h.sym_mode else max(1.0, abs(float(pen)))
     for i in range(n):
         for j in range(n):
             want = pen if (i == j and i in Dset) else Ad[i, j]
